@@ -92,8 +92,11 @@ def x_call(rng):
 
 def x_tail_jmp(rng):
     """the forms a tail call takes: jmp rel32, jmp rel8, jmp [rip+disp32], jmp rax"""
+    # (incl. jumps to the function that lies directly behind this one - displacement 0..3: a target computed from any
+    # earlier offset of this function would fall inside it; seeded change C02-x86-11)
     return rng.choice([bytes([0xE9, rng.below(256), rng.below(256), 0, 0]), bytes([0xEB, rng.below(128)]),
-                       bytes([0xFF, 0x25, rng.below(256), rng.below(256), 0, 0]), bytes([0xFF, 0xE0])])
+                       bytes([0xFF, 0x25, rng.below(256), rng.below(256), 0, 0]), bytes([0xFF, 0xE0]),
+                       bytes([0xE9, rng.below(4), 0, 0, 0]), bytes([0xEB, rng.below(4)])])
 
 def x_body(f, rng, ncalls):
     for _ in range(ncalls):
@@ -103,7 +106,7 @@ def x_body(f, rng, ncalls):
     for _ in range(rng.range(1, 2)):
         f.emit(I("fill"), "body", rng.choice(X_FILL))
 
-def make_x86(rng, name, shape=None, force_saved=None):
+def make_x86(rng, name, shape=None, force_saved=None, near_tail=False):
     shape = shape or rng.choice(["frame", "frame", "frameless", "frameless", "indirect", "dwarf-frame", "dwarf-frameless", "null-leaf", "null-fp"])
     f = Func("x86", name, shape)
     if shape == "null-leaf":
@@ -179,7 +182,10 @@ def make_x86(rng, name, shape=None, force_saved=None):
         f.emit(I("add", alloc), "epilogue", x_add_rsp(alloc))
     for r in reversed(saved):
         f.emit(I("pop", r), "epilogue", x_pop(r))
-    if rng.chance(3, 4):
+    if near_tail:
+        # tail call to the function directly behind this one (see x_tail_jmp)
+        f.emit(I("jmp"), "epilogue", rng.choice([bytes([0xE9, rng.below(4), 0, 0, 0]), bytes([0xEB, rng.below(4)])]))
+    elif rng.chance(3, 4):
         f.emit(I("ret"), "epilogue", X_RET)
     else:
         f.emit(I("jmp"), "epilogue", x_tail_jmp(rng))      # tail call
@@ -196,10 +202,17 @@ def make_x86(rng, name, shape=None, force_saved=None):
     return f
 
 def a_body(f, rng, ncalls):
-    for _ in range(ncalls):
+    for k in range(ncalls):
         for _ in range(rng.range(0, 3)):
             f.emit(I("fill"), "body", rng.choice(A_FILL))
         f.emit(I("bl"), "body", a_word(0x94000000 | rng.below(1 << 26)))
+        if k == 0:
+            # a reload of a spilled pair without write-back followed by a branch inside the function (the end of an `if`
+            # arm): sp has not moved, the branch is no tail call (seeded change C02-a64-12 took every ldp from [sp] for
+            # an instruction that adjusts sp)
+            f.emit(I("fill"), "body", a_word(0xA94153F3))        # ldp x19, x20, [sp, #16]
+            f.emit(I("fill"), "body", a_word(0x14000002))        # b   .+8
+            f.emit(I("fill"), "body", a_word(0xD503201F))        # nop
     for _ in range(rng.range(1, 2)):
         f.emit(I("fill"), "body", rng.choice(A_FILL))
 
@@ -401,6 +414,8 @@ def make_program(rng, arch, nfuncs=8, force_last_noreturn=False):
     if arch == "x86":
         # six saved registers with rbp pushed last / first (every slot of the permutation in use)
         funcs.append(make_x86(rng, "f%d" % len(funcs), "frameless", force_saved=[15, 14, 13, 12, RBX, RBP]))
+        # a frameless function with three pops that ends in a tail call to its neighbour
+        funcs.append(make_x86(rng, "f%d" % len(funcs), "frameless", force_saved=[RBX, 14, 15], near_tail=True))
         funcs.append(make_x86(rng, "f%d" % len(funcs), rng.choice(["frameless", "indirect"]),
                               force_saved=rng.choice([[RBP, 15, 14, 13, 12, RBX], [15, 14, 13, 12, RBX, RBP], [15, 14, RBP, 13, 12, RBX]])))
         funcs.append(make_x86(rng, "f%d" % len(funcs), "indirect", force_saved=rng.choice([[RBP], [RBX, RBP], [RBP, 12, 13]])))
